@@ -108,7 +108,7 @@ class C18:
         return {'extraction': {'uses': [u[0] for u in USES], 'contexts': [c[0] + '..' + c[1] for c in CONTEXTS], 'max_items': 2 if tier == 'quick' else 3,
                                'extraction_lists': EXTRS},
                 'inclusion': {'files': 3, 'lists_per_file': len(LISTS), 'graphs': len(LISTS) ** 3, 'start_lists': STARTS, 'skip': SKIPS,
-                              'spellings': 1 if tier == 'quick' else len(SPELL), 'packages': 'default (*)'}}
+                              'spellings': 'one of %d per run (rotating)' % len(SPELL) if tier == 'quick' else len(SPELL), 'packages': 'default (*)'}}
 
     def cases(self, tier, seed):
         items = [(u, c) for u in range(len(USES)) for c in range(len(CONTEXTS))]
@@ -133,7 +133,7 @@ class C18:
                 for gc in range(len(LISTS)):
                     for si in range(len(STARTS)):
                         for ki in range(len(SKIPS)):
-                            for sp in (range(1) if tier == 'quick' else range(len(SPELL))):
+                            for sp in ([(ga + gb + gc + si) % len(SPELL)] if tier == 'quick' else range(len(SPELL))):
                                 yield ['i', [ga, gb, gc], si, ki, sp]
 
     def judge(self, case):
